@@ -251,6 +251,13 @@ impl KeyMaterial {
         // all public ways of making a Key<32> from bytes are used in turn
         let a = arr::<32>(public).ok_or_else(|| bad("symmetric"))?;
         km.sym = Some(match a[31] % 4 {
+          // (every other time through a clone whose original is dropped - and with it zeroised - first)
+          0 if a[30] % 2 == 1 => {
+            let original = Key::<32>::from(a);
+            let copy = original.clone();
+            drop(original);
+            copy
+          }
           0 => Key::<32>::from(a),
           1 => Key::<32>::from(&a),
           2 => Key::<32>::from(&a[..]),
@@ -452,7 +459,15 @@ pub fn core_build(keys: &LibKeys, nonce: &[u8], msg: &str, footer: Option<&str>,
           }
         }
       }
-      b
+      // the core builder is `Copy`: a copy taken now stays what it is whatever the original is given afterwards
+      if msg.len() % 7 == 3 {
+        let copy = b;
+        b.set_payload(Payload::from("{\"decoy\":2}"));
+        b.set_footer(Footer::from("decoy-footer-on-the-original"));
+        copy
+      } else {
+        b
+      }
     }};
     ($V:ident, $P:ident, plain) => {{
       if assertion.is_some() {
@@ -469,7 +484,15 @@ pub fn core_build(keys: &LibKeys, nonce: &[u8], msg: &str, footer: Option<&str>,
       if let Some(f) = footer {
         b.set_footer(Footer::from(f));
       }
-      b
+      // the core builder is `Copy`: a copy taken now stays what it is whatever the original is given afterwards
+      if msg.len() % 7 == 3 {
+        let copy = b;
+        b.set_payload(Payload::from("{\"decoy\":2}"));
+        b.set_footer(Footer::from("decoy-footer-on-the-original"));
+        copy
+      } else {
+        b
+      }
     }};
   }
   let bad_nonce = || LibErr::other("harness: nonce of the wrong length");
